@@ -63,6 +63,6 @@ def main():
         not_applicable=na)
     json.dump(m, open(os.path.join(ROOT, 'MANIFEST.json'), 'w'), indent=1)
 
-HOOK_COMMITS = ['5ec79f3']
+HOOK_COMMITS = ['5ec79f3', '9d09cb3', '33c287e']
 if __name__ == '__main__':
     main()
